@@ -19,7 +19,7 @@ void drv_c10_mpz(int tier, unsigned long seed, const char *extra) {
   const int *ls = sh.pure ? ls_p : ls_q; int nl = sh.pure ? 4 : (tier ? 7 : 6);
   for (la = 0; la < nl; la++) for (lb = 0; lb < nl; lb++) for (s1 = 0; s1 < 7; s1++) {
     x++; if (!MINE(sh, x)) continue;
-    if (sh.pure && s1 > 4) continue;
+    if (sh.pure && (s1 > 4 || x % 6)) continue;
     rec_reset("c10_mpz", x, seed);
     for (j = 0; j < 4; j++) callf("mpz_init", j);
     for (sa = 0; sa < 2; sa++) for (sb = 0; sb < 2; sb++) {
